@@ -56,6 +56,10 @@ func C18(p *core.Program, r *core.Report) {
 		if err != nil {
 			r.Undecided("T1", "Classify", err.Error())
 		}
+		// a fact handed back by the direct-descendants helper stands for the condition it reports
+		if ddFn != nil {
+			paths, atoms = substituteFlagResults(p, ddFn, "directDescendants", paths, atoms)
+		}
 		classifyAtoms = atoms
 		r.Stats["classify_paths"] = len(paths)
 		r.Stats["classify_atoms"] = len(atoms)
